@@ -254,11 +254,25 @@ def rowfileEval (args : List String) : String :=
   | [cols, vis, file] => showM showRows (Model.readRows dec (unhex file) (parseCols cols) (vis == "1"))
   | _ => "bad-args"
 
+/-- t_infomask2 carries the attribute count in its low 11 bits only; the high bits are flags PostgreSQL sets on
+ordinary rows (0x2000 HEAP_KEYS_UPDATED: row locked FOR UPDATE / key-changing update or delete in flight or rolled back,
+0x4000 HEAP_HOT_UPDATED, 0x8000 HEAP_ONLY_TUPLE).  `formTuple` leaves them clear; the file families set them on two
+tuples out of three (a function of the slot position and the case index), which changes nothing in the Spec view. -/
+def withIm2Flags (salt : Nat) (blocks : List Spec.Block) : List Spec.Block :=
+  blocks.zipIdx.map fun (b, bi) =>
+    match b with
+    | .zero => .zero
+    | .page p =>
+      .page { p with slots := p.slots.zipIdx.map fun ((junk, t), si) =>
+        let k := (salt + 7 * bi + 3 * si) % 12
+        let hi := (if k % 3 == 0 then 0 else (if k % 2 == 0 then 0x2000 else 0) + (if k % 4 < 2 then 0x4000 else 0) + (if k ≥ 6 then 0x8000 else 0))
+        (junk, { t with infomask2 := t.infomask2 % 2048 + hi }) }
+
 def genFile (seed idx size : Nat) : List Spec.Col × List Model.Column × List Spec.Block × List (Nat × Spec.RowV) :=
   (do let cols ← Gen.genSchema size
       let mcols ← Gen.toModelCols cols
       let (blocks, vers) ← Gen.genRowHeap cols size
-      return (cols, mcols, blocks, vers)).run' (Prng.ofSeed seed idx)
+      return (cols, mcols, withIm2Flags idx blocks, vers)).run' (Prng.ofSeed seed idx)
 
 def rowfileGen (seed idx size : Nat) : Case :=
   let (cols, mcols, blocks, vers) := genFile seed idx size
@@ -267,7 +281,7 @@ def rowfileGen (seed idx size : Nat) : Case :=
   let want := vers.filter fun v => !vis || Spec.liveBits (Spec.formTuple cols v.2).infomask
   -- hypotheses of C03_file
   let hyp := blocksWF blocks && colsMatchB 0 mcols cols && !mcols.isEmpty && vers.all (fun v => decide (v.2.WF cols)) &&
-    decide ((blocks.flatMap Spec.Block.tuples) = vers.map fun v => Spec.formTuple cols v.2)
+    decide (((blocks.flatMap Spec.Block.tuples).map fun t => { t with infomask2 := t.infomask2 % 2048 }) = vers.map fun v => Spec.formTuple cols v.2)
   { tags := [s!"pages={blocks.length}", (if want.length == 0 then "rows=0" else if want.length < 10 then "rows<10" else "rows>=10"),
              hypTag hyp] ++ (if want.isEmpty then [] else ["nt"]),
     model := showM showRows (Model.readRows dec file mcols vis),
